@@ -219,8 +219,10 @@ func ruleC08(c *Ctx) {
 			if atoms["!("+a0+".AttributeStatement == nil)"] {
 				if through {
 					var ups []string
+					valsMap, _ := t.finalField(ai, "Values")
 					for _, e := range t.St.events {
-						if e.Kind == EvMapUpdate && e.Val != nil {
+						// updates of the map that ends up as AssertionInfo.Values (other maps are somebody's local business)
+						if e.Kind == EvMapUpdate && e.Val != nil && valsMap != nil && e.X != nil && e.X.Key() == valsMap.Key() {
 							ups = append(ups, ap(e.I)+" => "+ap(e.Val))
 						}
 					}
